@@ -596,7 +596,14 @@ class state_space_model_dense(ssm_impl_api.StateSpaceModel):
 
         # First, set up a template variable
 
-        leaves_flat, unflatten = tree.ravel_pytree(tcoeffs_mean)
+        # Promote all leaves to their common dtype first: unflatten() otherwise
+        # casts every leaf back to its own dtype, and the Jacobian with respect
+        # to an integer-typed leaf would be identically zero.
+        leaves_flat, _ = tree.ravel_pytree(tcoeffs_mean)
+        tcoeffs_like = tree.tree_map(
+            lambda s: np.asarray(s, dtype=leaves_flat.dtype), tcoeffs_mean
+        )
+        leaves_flat, unflatten = tree.ravel_pytree(tcoeffs_like)
 
         def vf_flat(tcoeffs_flat):
             tcoeffs_tree = unflatten(tcoeffs_flat)
